@@ -39,6 +39,9 @@ def _spec_and_real(out, pid, tier, seed, cfgs, variants, name):
                 obs, evs = E.record_real(cfg, f"{name}_rec", **v)
             else:
                 obs, evs = E.run_real(cfg, **v), None
+            if obs.get("inconclusive"):
+                out.drift(f"{obs['inconclusive']} ({cfg['layout']}, {cfg['nchain']} chains, nproc {cfg['nproc']}): run not judged")
+                continue
             n_real += 1
             viol, drift = E.judge(cfg, obs, terms.get(g), storage=v.get("storage", "mem"),
                                   tag=(" delays" if v.get("delays") else ""))
